@@ -213,7 +213,7 @@ fn explore_type(ctx: &Ctx, cnt: &Cnt, r: &Reach, p: ElementType, tier: Tier) {
         return;
     }
     // content states: base, base+1 creation, base+2 creations (small models only)
-    let big = cands.len() > tier.pick(10, 24);
+    let big = cands.len() > tier.pick(10, 40);
     let mut seqs: Vec<Vec<(ElementName, bool)>> = vec![vec![]];
     if cands.len() <= 60 {
         for c in &cands {
@@ -223,7 +223,7 @@ fn explore_type(ctx: &Ctx, cnt: &Cnt, r: &Reach, p: ElementType, tier: Tier) {
             for c1 in &cands {
                 for c2 in &cands {
                     seqs.push(vec![*c1, *c2]);
-                    if cands.len() <= tier.pick(3, 7) {
+                    if cands.len() <= tier.pick(3, 12) {
                         for c3 in &cands {
                             seqs.push(vec![*c1, *c2, *c3]);
                         }
